@@ -321,3 +321,388 @@ def rule_voting_threshold(ctx, R):
                       tname + ':matrix-dimensions', '', 'SortVoting is not sized by (number of candidates, number of '
                       'stored tracks)')
     return n
+
+
+# ---------------------------------------------------------------------------
+# C13: histories and galleries
+
+DEQUE = 'std::collections::VecDeque'
+
+
+def rule_histories(ctx, R):
+    """both update_history(): one push_back per deque per call; trimming by pop_front of all deques together, guarded
+    by history_length > 0 && len > history_length"""
+    import trackerlib as T
+    n = 0
+    for kind, deques in (('sort', ['observed_boxes', 'predicted_boxes']),
+                         ('visual', ['observed_boxes', 'predicted_boxes', 'observed_features'])):
+        b = ctx.anchor(R, T.ATTRS[kind] + '::update_history')
+        if b is None:
+            continue
+        eb = ExprBuilder(b)
+
+        def which(c):
+            r = eb.arg(c, 0).strip()
+            return r.fields[-1] if r.kind == 'place' and r.fields else None
+        ops = {}
+        bad_ops = []
+        for c in b.find_calls():
+            if DEQUE not in c.callee:
+                continue
+            w = which(c)
+            if w in deques:
+                ops.setdefault((w, c.name), []).append(c)
+                if c.name in ('push_front', 'pop_back', 'truncate', 'clear', 'drain', 'retain', 'split_off', 'resize',
+                              'remove', 'swap_remove_back', 'swap_remove_front', 'rotate_left', 'rotate_right'):
+                    bad_ops.append((w, c.name, c.ln))
+        n += 1
+        ctx.check(not bad_ops, R, b, kind + ':history-only-push_back/pop_front', '',
+                  'history deques are modified with %s: the histories no longer hold the most recent entries in '
+                  'arrival order' % bad_ops, bad_ops[0][2] if bad_ops else '')
+        pop_conds = {}
+        for d in deques:
+            pb = ops.get((d, 'push_back'), [])
+            r = count_on_paths(b, 0, b.returns(), [c.bb for c in pb])
+            n += 1
+            ctx.check(r == (1, 1), R, b, '%s:%s:one-push_back-per-detection' % (kind, d), str(r),
+                      'history `%s` receives %s push_back per attached detection (expected exactly one)' % (d, r))
+            pf = ops.get((d, 'pop_front'), [])
+            r = count_on_paths(b, 0, b.returns(), [c.bb for c in pf])
+            n += 1
+            ctx.check(r == (0, 1) and len(pf) == 1, R, b, '%s:%s:trimmed-by-one-pop_front' % (kind, d), str(r),
+                      'history `%s` is trimmed by %s pop_front calls per update (expected at most one, present): the '
+                      'bound min(track length, history length) is not maintained' % (d, r))
+            if pf:
+                pop_conds[d] = sorted(str(c) for c in path_conditions(b, pf[0].bb))
+                # push precedes the trim
+                ctx.check(bool(pb) and b.dominates(pb[0].bb, pf[0].bb), R, b, '%s:%s:push-before-trim' % (kind, d), '',
+                          'history `%s` is trimmed before the new entry is pushed' % d)
+                n += 1
+        n += 1
+        same = len(set(map(tuple, pop_conds.values()))) == 1 and len(pop_conds) == len(deques)
+        ctx.check(same, R, b, kind + ':histories-trimmed-in-lock-step', str(list(pop_conds.values())[:1])[:200],
+                  'the history deques are not trimmed under the same condition (%s): observed boxes, predicted boxes '
+                  'and features get out of step' % pop_conds)
+        # the guard
+        if pop_conds:
+            d0 = deques[0]
+            pf = ops[(d0, 'pop_front')][0]
+            cmps = [c.cmp() for c in path_conditions(b, pf.bb) if c.cmp()]
+            ok_len = ok_pos = False
+            for cm in cmps:
+                o = orient(cm, lambda e: e.has_call('len'))
+                if o and o[2].has_field('history_length'):
+                    ok_len = o[0] == 'Gt' and any(o[1].has_field(d) for d in deques)
+                o2 = orient(cm, lambda e: e.has_field('history_length') and not e.has_call('len'))
+                if o2 and o2[2].kind == 'const' and o2[2].const_value() == '0':
+                    ok_pos = o2[0] == 'Gt'
+            n += 1
+            ctx.check(ok_len, R, b, kind + ':trim-iff-len>history_length', str([('%r %s %r' % (c[1], c[0], c[2])) for c in cmps])[:200],
+                      'the histories are trimmed under %s (expected `len > history_length`): they keep more or fewer '
+                      'than the most recent history_length entries' % [('%r %s %r' % (c[1], c[0], c[2])) for c in cmps])
+    return n
+
+
+def rule_gallery(ctx, R):
+    """optimize_observations: retain(feature present) -> sort by decreasing quality -> if len >= max truncate(len-1);
+    optimize(): trim, then push the new observation, swap it to the front, then recount"""
+    F = ctx.F
+    n = 0
+    b = ctx.anchor(R, VIS + '::optimize_observations')
+    if b is not None:
+        eb = ExprBuilder(b)
+        import votinglib as V
+        ret = b.find_calls('std::vec::Vec::retain')
+        srt = V.sort_calls(b)
+        trn = b.find_calls('std::vec::Vec::truncate')
+        n += 1
+        ok = len(ret) == 1 and len(srt) == 1 and len(trn) == 1
+        ctx.check(ok, R, b, 'gallery:retain/sort/truncate-present', '%d/%d/%d' % (len(ret), len(srt), len(trn)),
+                  'optimize_observations no longer has exactly one retain, one sort and one truncate (%d/%d/%d)' % (
+                      len(ret), len(srt), len(trn)))
+        if ok:
+            n += 1
+            ctx.check(b.dominates(ret[0].bb, srt[0].bb) and b.dominates(srt[0].bb, trn[0].bb), R, b,
+                      'gallery:order(retain,sort,truncate)', '',
+                      'the gallery is truncated before it is sorted by quality (or sorted before feature-less entries '
+                      'are removed): the entry evicted is not the lowest-quality one', trn[0].ln)
+            for cb in closure_args_of_call(F, b, srt[0]):
+                d, f = V.comparator_direction(cb)
+                if d is None:
+                    e = ExprBuilder(cb).place(0, ())
+                    pc = [x for x in e.walk() if x.kind == 'call' and x.name.endswith('partial_cmp')]
+                    if pc:
+                        l, r = pc[0].args
+                        lq = l.has_call('visual_quality')
+                        rq = r.has_call('visual_quality')
+                        lr = [p.root for p in l.places() if p.root[0] == 'param']
+                        rr = [p.root for p in r.places() if p.root[0] == 'param']
+                        if lq and rq and lr and rr:
+                            d = 'desc' if (lr[0], rr[0]) == (('param', 3), ('param', 2)) else (
+                                'asc' if (lr[0], rr[0]) == (('param', 2), ('param', 3)) else None)
+                            f = 'visual_quality'
+                n += 1
+                ctx.check(d == 'desc' and f == 'visual_quality', R, cb, 'gallery:sorted-by-decreasing-quality',
+                          '%s on %s' % (d, f), 'stored features are sorted %s on %s (expected decreasing visual '
+                          'quality so that truncation evicts the lowest quality)' % (d, f))
+            for cb in closure_args_of_call(F, b, ret[0]):
+                e = ExprBuilder(cb).place(0, ())
+                n += 1
+                ctx.check(e.kind == 'call' and e.name.endswith('is_some') and e.has_call('feature'), R, cb,
+                          'gallery:retain-feature-bearing', repr(e)[:80], 'retain keeps %r (expected entries whose '
+                          'feature is present)' % e)
+            conds = path_conditions(b, trn[0].bb)
+            okg = False
+            detail = [str(c) for c in conds]
+            for c in conds:
+                o = orient(c.cmp(), lambda e: e.has_call('len'))
+                if o and o[2].has_field('visual_max_observations'):
+                    okg = o[0] == 'Ge'
+            n += 1
+            ctx.check(okg, R, b, 'gallery:evict-iff-len>=max', str(detail)[:160],
+                      'an entry is evicted under %s (expected `len >= visual_max_observations`, so that after the new '
+                      'feature is pushed at most visual_max_observations remain)' % detail)
+            arg = eb.arg(trn[0], 1)
+            n += 1
+            ctx.check(arg.kind == 'bin' and arg.name == 'Sub' and arg.args[0].has_call('len') and
+                      arg.args[1].const_value() == '1', R, b, 'gallery:evict-exactly-one(the last)', repr(arg),
+                      'truncate(%r) does not drop exactly the last (lowest-quality) entry' % arg)
+    ob = ctx.anchor(R, VIS_METRIC + '::optimize')
+    if ob is not None:
+        eb = ExprBuilder(ob)
+        oo = ob.find_calls(VIS + '::optimize_observations')
+        ps = ob.find_calls('std::vec::Vec::push')
+        sw = [c for c in ob.find_calls() if c.name == 'swap' and 'slice' in c.callee]
+        n += 1
+        ok = len(oo) == 1 and len(ps) == 1 and ob.dominates(oo[0].bb, ps[0].bb)
+        ctx.check(ok, R, ob, 'optimize:trim-before-push', '', 'the gallery is not trimmed (optimize_observations) '
+                  'before the new observation is pushed')
+        # count assigned after the push, from a count of feature-bearing entries of the same vector
+        found = False
+        for i in sorted(ob.live_blocks()):
+            for si, s in enumerate(ob.blocks[i]['st']):
+                if s['k'] == 'assign' and s['lhs']['p'] and isinstance(s['lhs']['p'][-1], dict) and \
+                        s['lhs']['p'][-1].get('n') == 'visual_features_collected_count':
+                    v = eb._rvalue(s['rv'], (), 0, (i, si))
+                    found = True
+                    n += 1
+                    okc = v.has_call('count') and v.has_call('filter') and ps and ob.dominates(ps[0].bb, i) and \
+                        v.has_place(root=('param', 5))
+                    pred_ok = False
+                    for c in ob.find_calls('std::iter::Iterator::filter'):
+                        for cb in closure_args_of_call(F, ob, c):
+                            e = ExprBuilder(cb).place(0, ())
+                            pred_ok = pred_ok or (e.kind == 'call' and e.name.endswith('is_some') and e.has_call('feature'))
+                    ctx.check(okc and pred_ok, R, ob, 'optimize:count=stored-features-after-push', repr(v)[:100],
+                              'visual_features_collected_count is set to %r (expected the number of feature-bearing '
+                              'observations counted after the new one was pushed)' % v, s['ln'])
+        if not found:
+            ctx.fail(R, ob, 'optimize:count=stored-features-after-push', 'the collected-features count is never updated')
+    return n
+
+
+def rule_collect_gate(ctx, R_collect, R_use):
+    """feature_can_be_used is evaluated with the *_collect thresholds (and only for merges) in optimize() and with the
+    *_use thresholds in metric(); its three conjuncts use >="""
+    F = ctx.F
+    n = 0
+    fb = ctx.anchor(R_use, VIS + '::feature_can_be_used')
+    if fb is not None:
+        eb = ExprBuilder(fb)
+        facts = []
+        for bb, knd, payload in result_assignments(fb):
+            if knd == 'const' and payload is False:
+                continue
+            for c in path_conditions(fb, bb):
+                if c.kind == 'bool' and c.truth is True:
+                    facts.append(c.expr)
+            if knd == 'expr':
+                facts.append(payload)
+        cmps = []
+        for e in facts:
+            for x in e.walk():
+                cm = as_cmp(x, True)
+                if cm:
+                    cmps.append(cm)
+        # closure for the percentage
+        for cb in all_closures(F, fb):
+            e = ExprBuilder(cb).place(0, ())
+            cm = as_cmp(e, True)
+            if cm:
+                r = cm[2].strip()
+                if r.kind == 'place' and r.root[0] == 'upvar':
+                    pb, pe = upvar_expr(F, cb, r.root[1])
+                    if pe is not None and pe.strip().kind == 'place' and pe.strip().root == ('param', 6):
+                        cmps.append((cm[0], cm[1], pe.strip()))
+        want = {'quality': ('param', 3, ('param', 4)), 'own-area': (None, None, ('param', 6)),
+                'area': (None, None, 'visual_minimal_area')}
+        got = {}
+        for op, l, r in cmps:
+            r_ = r.strip()
+            if r_.kind == 'place' and r_.root == ('param', 4):
+                got['quality'] = (op, l.strip().kind == 'place' and l.strip().root == ('param', 3))
+            elif r_.kind == 'place' and r_.root == ('param', 6):
+                got['own-area'] = (op, True)
+            elif r.has_field('visual_minimal_area'):
+                got['area'] = (op, l.has_call('area'))
+        for k in ('quality', 'own-area', 'area'):
+            n += 1
+            g = got.get(k)
+            ctx.check(g is not None and g[0] == 'Ge' and g[1], R_use, fb, 'usable:%s>=threshold' % k, str(g),
+                      'the %s condition of a usable feature is %s (expected value >= threshold: "at or above")' % (k, g))
+        # conjunction: all three necessary
+        uo = [x for e in facts for x in e.walk() if x.kind == 'call' and x.name.endswith('unwrap_or')]
+        n += 1
+        ctx.check(any(x.args[1].const_value() is True for x in uo), R_use, fb, 'usable:missing-own-area-passes', '',
+                  'a detection without an own-area share is not treated as passing the own-area condition')
+    mb = ctx.anchor(R_use, VIS_METRIC + '::metric')
+    if mb is not None:
+        eb = ExprBuilder(mb)
+        cs = mb.find_calls(VIS + '::feature_can_be_used')
+        n += 1
+        ok = len(cs) == 1
+        if ok:
+            q, a = eb.arg(cs[0], 3).strip(), eb.arg(cs[0], 5).strip()
+            ok = q.fields[-1:] == ('visual_minimal_quality_use',) and a.fields[-1:] == (
+                'visual_minimal_own_area_percentage_use',)
+            fq = eb.arg(cs[0], 2)
+            fa = eb.arg(cs[0], 4)
+            ok = ok and fq.has_call('visual_quality') and fa.has_call('own_area_percentage_opt') and \
+                fq.has_field('candidate_observation') and fa.has_field('candidate_observation')
+            vm = mb.find_calls(VIS + '::visual_metric')
+            g = all(any(k.kind == 'bool' and k.truth is True and k.expr.kind == 'call' and k.expr.extra is cs[0]
+                        for k in path_conditions(mb, v.bb)) for v in vm) and bool(vm)
+            ok = ok and g
+        ctx.check(ok, R_use, mb, 'metric:appearance-only-if-usable(use-thresholds, candidate values)', '',
+                  'metric() does not gate the appearance distance by feature_can_be_used(candidate box, candidate '
+                  'quality, visual_minimal_quality_use, candidate own-area share, '
+                  'visual_minimal_own_area_percentage_use)')
+    ob = ctx.anchor(R_collect, VIS_METRIC + '::optimize')
+    if ob is not None:
+        eb = ExprBuilder(ob)
+        cs = ob.find_calls(VIS + '::feature_can_be_used')
+        n += 1
+        ok = len(cs) == 1
+        if ok:
+            q, a = eb.arg(cs[0], 3).strip(), eb.arg(cs[0], 5).strip()
+            ok = q.fields[-1:] == ('visual_minimal_quality_collect',) and a.fields[-1:] == (
+                'visual_minimal_own_area_percentage_collect',)
+        ctx.check(ok, R_collect, ob, 'optimize:collect-thresholds', '',
+                  'optimize() does not evaluate the collect decision with visual_minimal_quality_collect / '
+                  'visual_minimal_own_area_percentage_collect')
+        # the feature is cleared exactly when is_merge && !usable
+        cleared = False
+        for i in sorted(ob.live_blocks()):
+            for si, s in enumerate(ob.blocks[i]['st']):
+                if s['k'] == 'assign' and s['lhs']['p'] and s['lhs']['p'][0] == '*':
+                    tgt = eb.place(s['lhs']['l'], (), 0, (i, si))
+                    if tgt.has_call('feature_mut'):
+                        v = eb._rvalue(s['rv'], (), 0, (i, si))
+                        conds = path_conditions(ob, i)
+                        merge = any(k.kind == 'bool' and k.truth is True and k.expr.strip().kind == 'place' and
+                                    k.expr.strip().root == ('param', 7) for k in conds)
+                        notok = any(k.kind == 'bool' and k.truth is False and k.expr.kind == 'call' and
+                                    k.expr.name.endswith('feature_can_be_used') for k in conds)
+                        cleared = True
+                        n += 1
+                        ctx.check(merge and notok and v.kind == 'agg' and v.name.endswith('Option::None'), R_collect, ob,
+                                  'optimize:feature-dropped-iff-merge-and-below-collect-thresholds',
+                                  str([str(k) for k in conds])[:160],
+                                  'the feature of a continuing detection is dropped under %s (expected exactly: it '
+                                  'continues a track (is_merge) and fails the collect thresholds)' % [str(k) for k in conds],
+                                  s['ln'])
+        if not cleared:
+            ctx.fail(R_collect, ob, 'optimize:feature-dropped-iff-merge-and-below-collect-thresholds',
+                     'features of detections below the collect thresholds are no longer dropped')
+    # both front ends compute own-area shares whenever either threshold is positive
+    import trackerlib as T
+    for tname, t in T.TRACKERS.items():
+        if not t['visual']:
+            continue
+        pb = ctx.anchor(R_collect, t['predict'])
+        if pb is None:
+            continue
+        oa = pb.find_calls('utils::clipping::bbox_own_areas::exclusively_owned_areas')
+        n += 1
+        ok = bool(oa)
+        detail = ''
+        if ok:
+            C_, U_ = 'visual_minimal_own_area_percentage_collect', 'visual_minimal_own_area_percentage_use'
+            conds = [k for k in path_conditions(pb, oa[0].bb) if k.kind == 'bool' and k.truth is True]
+            ok = False
+            for k in conds:
+                e = k.expr
+                alts = e.args if e.kind == 'phi' else [e]
+                cm = [as_cmp(a, True) for a in alts if as_cmp(a, True)]
+                consts = [a.const_value() for a in alts if a.kind == 'const']
+                detail = repr(e)[:160]
+                for c_ in cm:
+                    o = orient(c_, lambda x: x.has_field(C_) or x.has_field(U_))
+                    if o and o[0] == 'Gt' and o[1].has_field(C_) and o[1].has_field(U_) and any(
+                            y.kind == 'bin' and y.name == 'Add' for y in o[1].walk()) and not consts:
+                        ok = True     # form A: collect + use > 0
+                if True in consts and False not in consts and cm:
+                    # form B: a || b  (short-circuit yields a `true` alternative)
+                    seen = set()
+                    for c_ in cm:
+                        for f in (C_, U_):
+                            if c_[1].has_field(f) or c_[2].has_field(f):
+                                seen.add(f)
+                    ebp = ExprBuilder(pb)
+                    for i in sorted(pb.live_blocks()):
+                        for kk in path_conditions(pb, i):
+                            pass
+                    # the other field is tested on the path to the `true` alternative
+                    for i in sorted(pb.live_blocks()):
+                        for si, s_ in enumerate(pb.blocks[i]['st']):
+                            if s_['k'] == 'assign' and s_['rv']['k'] == 'bin' and s_['rv']['op'] in ('Gt', 'Lt', 'Ge', 'Le'):
+                                x = ebp._rvalue(s_['rv'], (), 0, (i, si))
+                                for f in (C_, U_):
+                                    if x.has_field(f):
+                                        seen.add(f)
+                    ok = ok or seen == {C_, U_}
+        ctx.check(ok, R_collect, pb, tname + ':own-area-shares-computed-if-either-threshold-set', detail,
+                  'own-area shares are computed under `%s` (expected: whenever the collect OR the use threshold is '
+                  'positive, i.e. collect + use > 0); with only one threshold set the share is missing and a missing '
+                  'share is treated as passing' % detail)
+        # percentages[i] indexed by the detection's own position
+        for cb in all_closures(ctx.F, pb):
+            for c in cb.find_calls('with_own_area_percentage'):
+                e = ExprBuilder(cb).arg(c, 2)
+                idxs = [x for x in e.walk() if x.kind == 'call' and x.name.rsplit('::', 1)[-1] == 'index']
+                n += 1
+                okp = bool(idxs) and idxs[0].args[1].strip().kind == 'place' and idxs[0].args[1].strip().root == ('param', 2)
+                ctx.check(okp, R_collect, cb, tname + ':share-of-this-detection', repr(idxs[0].args[1]) if idxs else '',
+                          "a detection's own-area share is taken at index %s (expected the detection's own position "
+                          'in its scene)' % (repr(idxs[0].args[1]) if idxs else '?'), c.ln)
+    return n
+
+
+def rule_wasted_conversions(ctx, R):
+    n = 0
+    for path in ('<trackers::sort::WastedSortTrack as std::convert::From>::from',
+                 '<trackers::visual_sort::WastedVisualSortTrack as std::convert::From>::from'):
+        bs = ctx.anchor(R, path, multi=True)
+        for b in bs:
+            e = ExprBuilder(b).place(0, ())
+            if e.kind != 'agg':
+                ctx.fail(R, b, 'aggregate', 'wasted-track record is not a struct literal')
+                continue
+            m = dict(zip(e.extra['fields'], e.args))
+            want = {
+                'id': lambda x: x.strip().kind == 'call' and x.strip().name.endswith('get_track_id'),
+                'epoch': lambda x: x.has_field('last_updated_epoch'),
+                'scene_id': lambda x: x.has_field('scene_id'),
+                'length': lambda x: x.has_field('track_length'),
+                'observed_bbox': lambda x: x.has_call('back') and x.has_field('observed_boxes') and not x.has_field('predicted_boxes'),
+                'predicted_bbox': lambda x: x.has_call('back') and x.has_field('predicted_boxes') and not x.has_field('observed_boxes'),
+                'observed_boxes': lambda x: x.has_call('collect') and x.has_field('observed_boxes') and not x.has_field('predicted_boxes') and not x.has_call('rev'),
+                'predicted_boxes': lambda x: x.has_call('collect') and x.has_field('predicted_boxes') and not x.has_field('observed_boxes') and not x.has_call('rev'),
+            }
+            if 'observed_features' in m:
+                want['observed_features'] = lambda x: x.has_call('collect') and x.has_field('observed_features') and not x.has_call('rev')
+            for f, pred in want.items():
+                n += 1
+                ctx.check(f in m and pred(m[f]), R, b, 'wasted.%s' % f, repr(m.get(f))[:80],
+                          'wasted-track field `%s` is built from %r' % (f, m.get(f)))
+    return n
